@@ -63,13 +63,17 @@ fn key_ip(k: &str) -> IpAddr {
 }
 
 /// One run: ops = [(dt ticks) | (key)], returns the recorded history.
-fn run_one(d: u64, l: usize, tick_ms: u64, ops: &[Value], reader: &Shared) -> (Vec<Value>, bool) {
+fn run_one(d: u64, l: usize, tick_ms: u64, ops: &[Value], reader: &Shared, uptime_ms: u64) -> (Vec<Value>, bool) {
     let rt = tokio::runtime::Builder::new_current_thread().enable_all().start_paused(true).build().unwrap();
     let res = std::panic::catch_unwind(std::panic::AssertUnwindSafe(|| {
         rt.block_on(async {
             let dur = Duration::from_millis(d * tick_ms);
             let mut main: RateLimiter<IpAddr> = RateLimiter::new(dur, l);
             let mut iso: HashMap<String, RateLimiter<IpAddr>> = HashMap::new();
+            // the limiter has been up (and idle) for a while before the history starts: weeks are nothing special
+            if uptime_ms > 0 {
+                tokio::time::advance(Duration::from_millis(uptime_ms)).await;
+            }
             let mut t: u64 = 0;
             let mut h = vec![];
             for op in ops {
@@ -139,8 +143,17 @@ pub fn main(args: &[String]) {
     opentelemetry::global::set_meter_provider(provider);
 
     let mut out = String::new();
-    let mut emit = |src: &str, d: u64, l: usize, tick: u64, ops: &[Value], h: Vec<Value>, panic: bool| {
-        let rec = json!({"src": src, "cfg": {"D": d, "L": l, "tickMs": tick}, "ops": ops.len(), "h": h, "panic": panic});
+    // uptimes that put the history across 2^31 / 2^32 milliseconds (24.9 / 49.7 days) and 2^32 seconds-worth of nothing in particular
+    let uptime = |sel: u64, within_ms: u64| -> u64 {
+        match sel % 5 {
+            1 => (1u64 << 32) - within_ms,
+            2 => (1u64 << 31) - within_ms,
+            3 => 3 * (1u64 << 32) + within_ms,
+            _ => 0,
+        }
+    };
+    let mut emit = |src: &str, d: u64, l: usize, tick: u64, ops: &[Value], h: Vec<Value>, panic: bool, up: u64| {
+        let rec = json!({"src": src, "cfg": {"D": d, "L": l, "tickMs": tick}, "ops": ops.len(), "h": h, "panic": panic, "uptimeMs": up});
         out.push_str(&rec.to_string());
         out.push('\n');
     };
@@ -153,8 +166,10 @@ pub fn main(args: &[String]) {
             let ops = w["walk"].as_array().cloned().unwrap_or_default();
             // dyadic tick lengths so that the f32 arithmetic of the code is exact
             let tick = [250u64, 1000, 500, 125][(seed as usize + i) % 4];
-            let (h, panic) = run_one(d, l, tick, &ops, &reader);
-            emit("walk", d, l, tick, &ops, h, panic);
+            let total: u64 = ops.iter().map(|o| o["dt"].as_u64().unwrap_or(0)).sum::<u64>() * tick;
+            let up = uptime(seed + i as u64, total / 2 + 1);
+            let (h, panic) = run_one(d, l, tick, &ops, &reader, up);
+            emit("walk", d, l, tick, &ops, h, panic, up);
         }
     }
     let mut r = Rng::new(seed ^ 0xabcdef);
@@ -164,8 +179,10 @@ pub fn main(args: &[String]) {
         let nkeys = [1u64, 2, 3, 16][r.below(4) as usize];
         let tick = [250u64, 1000, 500, 125][r.below(4) as usize];
         let ops = random_ops(&mut r, d, nkeys, len);
-        let (h, panic) = run_one(d, l, tick, &ops, &reader);
-        emit("random", d, l, tick, &ops, h, panic);
+        let total: u64 = ops.iter().map(|o| o["dt"].as_u64().unwrap_or(0)).sum::<u64>() * tick;
+        let up = uptime(r.below(5), 1 + r.below(total.max(1)));
+        let (h, panic) = run_one(d, l, tick, &ops, &reader, up);
+        emit("random", d, l, tick, &ops, h, panic, up);
     }
     std::fs::write(output.expect("--out"), out).expect("write output");
 }
